@@ -162,6 +162,10 @@ func gen(cs Case) *pipe.Workload {
 		return pipe.GenRaw(r, o)
 	case "dissect-pool":
 		return genDissectPool(r)
+	case "aligned":
+		return pipe.GenAligned(r, false)
+	case "reader-aligned":
+		return pipe.GenAligned(r, true)
 	case "pinned":
 		return pinned(cs.Name)
 	}
@@ -212,10 +216,12 @@ func Run(c *run.Ctx) {
 		{"reader-structured", c.N(16, 300)},
 		{"raw", c.N(30, 500)},
 		{"dissect-pool", c.N(8, 100)},
+		{"aligned", c.N(12, 200)},
+		{"reader-aligned", c.N(6, 100)},
 		{"cli", c.N(24, 300)},
 	}
 	if c.Flavour != "plain" {
-		plans = []plan{{"captures", 500}, {"reader-captures", 120}, {"structured", 150}, {"raw", 150}, {"dissect-pool", 40}}
+		plans = []plan{{"captures", 500}, {"reader-captures", 120}, {"structured", 150}, {"raw", 150}, {"dissect-pool", 40}, {"aligned", 40}, {"reader-aligned", 20}}
 		if c.Flavour == "asan" {
 			plans = []plan{{"captures", 200}, {"raw", 80}, {"dissect-pool", 20}, {"structured", 40}}
 		}
